@@ -245,6 +245,8 @@ class SInt(object):
         if c is None:
             o2 = self._coerce(o)
             if o2 is not None and not self.bv:
+                if not getattr(engine(), 'nonlinear_ok', False):
+                    raise Unsupported('floor division by a symbolic value (nonlinear; unit has not opted in)')
                 # symbolic divisor, int mode: only for provably positive divisors
                 if o2.lo is None or o2.lo <= 0:
                     engine().side_obligation('divisor-positive', o2.t > 0)
@@ -268,6 +270,8 @@ class SInt(object):
         if c is None:
             o2 = self._coerce(o)
             if o2 is not None and not self.bv:
+                if not getattr(engine(), 'nonlinear_ok', False):
+                    raise Unsupported('modulo by a symbolic value (nonlinear; unit has not opted in)')
                 if o2.lo is None or o2.lo <= 0:
                     engine().side_obligation('divisor-positive', o2.t > 0)
                 return SInt(self.t % o2.t, 0, None if o2.hi is None else o2.hi - 1)
